@@ -11,6 +11,8 @@ Lemma Zeqb_N a b : (Z.of_N a =? Z.of_N b)%Z = (a =? b).
 Proof. destruct (a =? b) eqn:H; lia. Qed.
 Lemma two_le (n : N) : (2 <=? Z.of_N n - 0)%Z = (2 <=? n).
 Proof. destruct (2 <=? n) eqn:H; lia. Qed.
+Lemma one_lt (n : N) : (1 <? Z.of_N n - 0)%Z = (2 <=? n).
+Proof. destruct (2 <=? n) eqn:H; lia. Qed.
 
 Arguments process : simpl never. Arguments nprocess : simpl never. Arguments scan_loop : simpl never.
 Arguments N.add : simpl never. Arguments Z.of_N : simpl never. Arguments Z.ltb : simpl never. Arguments Z.eqb : simpl never.
@@ -76,11 +78,11 @@ Proof.
       destruct data as [[|b0 t]|]; cbn.
       + apply IH; cbn; try assumption; try (intros; cbn; apply Hc); try reflexivity; try (rewrite Ht; reflexivity).
         rewrite Htr. unfold rx_events. rewrite map_app, app_assoc. reflexivity.
-      + rewrite Hu. cbn. rewrite Hu0. cbn. rewrite two_le.
+      + rewrite Hu. cbn. rewrite Hu0. cbn. rewrite ?two_le, ?one_lt.
         destruct (2 <=? rx (process (sc_ubx sw) (b0 :: t))).
         * cbn. repeat split; cbn; try (rewrite Ht; reflexivity).
           rewrite Htr. unfold rx_events. rewrite map_app, app_assoc. reflexivity.
-        * cbn. rewrite Hn. cbn. rewrite Hn0. cbn. rewrite two_le.
+        * cbn. rewrite Hn. cbn. rewrite Hn0. cbn. rewrite ?two_le, ?one_lt.
           destruct (2 <=? nrx (nprocess (sc_nmea sw) (b0 :: t))).
           -- cbn. repeat split; cbn; try (rewrite Ht; reflexivity).
              rewrite Htr. unfold rx_events. rewrite map_app, app_assoc. reflexivity.
